@@ -46,6 +46,7 @@ deriving DecidableEq, Repr
 
 inductive Err where
   | valueError | connection
+  | zeroDivision      -- download.py:84 formats local/online*100 for the log even when the server announces size 0
 deriving DecidableEq, Repr
 
 def request (srv : Server) (w : World) (r : Req) : World × RawResp :=
@@ -98,7 +99,9 @@ def downloadFile (srv : Server) (w : World) : World × Except Err Unit :=
     | (w, Except.error e) => (w, Except.error e)
     | (w, Except.ok none) => (w, Except.error Err.valueError)
     | (w, Except.ok (some n)) =>
-      if n = a.length then (w, Except.ok ()) else downloadResume srv w (some a.length)
+      if n = a.length then (w, Except.ok ())
+      else if n = 0 then (w, Except.error Err.zeroDivision)
+      else downloadResume srv w (some a.length)
   | none => downloadResume srv w none
 
 /-- the `for attempt in range(nb_attempt)` loop of Dataset.download (kapture_download_dataset.py:313-326) -/
